@@ -9,6 +9,7 @@
 #include <cstdlib>
 #include <cstring>
 #include <iostream>
+#include <random>
 #include <sstream>
 #include <string>
 #include <vector>
@@ -59,6 +60,55 @@ static inline unsigned long long b_of64(double d) {
   unsigned long long b; std::memcpy(&b, &d, 8); return b;
 }
 
+// generator family for uniform_real_distribution (generic in G): result type R, range [MIN, MAX], returns the planted value
+template <class R, R MIN, R MAX>
+struct GenStub {
+  typedef R result_type;
+  R v;
+  static constexpr R min() { return MIN; }
+  static constexpr R max() { return MAX; }
+  R operator()() { return v; }
+};
+template <class T, class G>
+static T draw_uniform(T l, T u, G g) { utility::uniform_real_distribution<T> d(l, u); return d(g); }
+template <class T>
+static T uniform_with_gen(int gen, T l, T u, unsigned long long k) {
+  switch (gen) {
+    case 0: return draw_uniform(l, u, GenStub<uint32_t, 0u, 0xFFFFFFFFu>{(uint32_t)k});
+    case 1: return draw_uniform(l, u, GenStub<uint32_t, 1u, 2147483646u>{(uint32_t)k});
+    case 2: return draw_uniform(l, u, GenStub<uint32_t, 1u, 6u>{(uint32_t)k});
+    case 3: return draw_uniform(l, u, GenStub<uint64_t, 0ull, 0xFFFFFFFFFFFFFFFFull>{(uint64_t)k});
+    case 4: return draw_uniform(l, u, GenStub<uint64_t, 1ull, 2305843009213693950ull>{(uint64_t)k});
+    case 5: return draw_uniform(l, u, GenStub<uint32_t, 5u, 1005u>{(uint32_t)k});
+    default: return draw_uniform(l, u, GenStub<uint64_t, 1000000007ull, 1000000262ull>{(uint64_t)k});
+  }
+}
+// the standard engines (first draw after seeding)
+template <class T>
+static T uniform_with_std(int eng, unsigned long long seed, T l, T u) {
+  utility::uniform_real_distribution<T> d(l, u);
+  switch (eng) {
+    case 0: { std::minstd_rand0 g((std::minstd_rand0::result_type)seed); return d(g); }
+    case 1: { std::minstd_rand g((std::minstd_rand::result_type)seed); return d(g); }
+    case 2: { std::mt19937 g((std::mt19937::result_type)seed); return d(g); }
+    case 3: { std::mt19937_64 g(seed); return d(g); }
+    default: { std::knuth_b g((std::knuth_b::result_type)seed); return d(g); }
+  }
+}
+
+// consuming a result BY REFERENCE: `auto&& r = f(temporaries...)`, other stack activity, then r is read in a LATER statement.
+// For a function returning by value the temporary's lifetime is extended; a function that hands back a reference to one
+// of its (temporary / defaulted) arguments leaves r dangling: ASan reports stack-use-after-scope, -O2 reads garbage.
+static void __attribute__((noinline)) scribble() {
+  volatile unsigned char buf[512];
+  for (int i = 0; i < 512; i++) buf[i] = (unsigned char)(0xA5 ^ i);
+}
+#define OUTR(conv, e)                                            \
+  do {                                                           \
+    if (byref) { auto &&r_ = e; scribble(); o << conv(r_); }     \
+    else o << conv(e);                                           \
+  } while (0)
+
 int main() {
   std::string line;
   while (std::getline(std::cin, line)) {
@@ -66,16 +116,20 @@ int main() {
     long long fn; is >> fn;
     std::vector<long long> a; std::vector<unsigned long long> ua; std::string tok;
     while (is >> tok) { a.push_back(std::strtoll(tok.c_str(), 0, 10)); ua.push_back(std::strtoull(tok.c_str(), 0, 10)); }
+    bool byref = false;
+    if (fn == 60 && !a.empty()) {   // "60 <fn> args...": the same call, result kept by reference and read later
+      byref = true; fn = a[0]; a.erase(a.begin()); ua.erase(ua.begin());
+    }
     std::ostringstream o;
     switch (fn) {
-      case 1: o << b_of(rcp(f_of(a[0]))); break;
-      case 2: o << b_of(rcp_safe(f_of(a[0]))); break;
-      case 3: o << b_of(rsqrt(f_of(a[0]))); break;
-      case 4: o << b_of(clamp(f_of(a[0]), f_of(a[1]), f_of(a[2]))); break;
-      case 5: o << b_of(deg2rad(f_of(a[0]))); break;
-      case 6: o << b_of(madd(f_of(a[0]), f_of(a[1]), f_of(a[2]))); break;
-      case 7: o << b_of(lerp(f_of(a[0]), f_of(a[1]), f_of(a[2]))); break;
-      case 8: o << b_of(sign(f_of(a[0]))); break;
+      case 1: OUTR(b_of, rcp(f_of(a[0]))); break;
+      case 2: OUTR(b_of, rcp_safe(f_of(a[0]))); break;
+      case 3: OUTR(b_of, rsqrt(f_of(a[0]))); break;
+      case 4: OUTR(b_of, clamp(f_of(a[0]), f_of(a[1]), f_of(a[2]))); break;
+      case 5: OUTR(b_of, deg2rad(f_of(a[0]))); break;
+      case 6: OUTR(b_of, madd(f_of(a[0]), f_of(a[1]), f_of(a[2]))); break;
+      case 7: OUTR(b_of, lerp(f_of(a[0]), f_of(a[1]), f_of(a[2]))); break;
+      case 8: OUTR(b_of, sign(f_of(a[0]))); break;
       case 9: o << (long long)cvt_uint32(f_of(a[0])); break;
       case 10: o << (long long)cvt_uint32(vec4f(f_of(a[0]), f_of(a[1]), f_of(a[2]), f_of(a[3]))); break;
       case 11: {   // pcg32_biased_float_distribution(seed, sequence, lower, upper): value number n
@@ -113,30 +167,40 @@ int main() {
         o << b_of(u(g));
         break;
       }
-      case 14: o << b_of(linear_to_srgb(f_of(a[0]))); break;                       // oracle only (libm pow)
+      case 14: OUTR(b_of, linear_to_srgb(f_of(a[0]))); break;                       // oracle only (libm pow)
       case 15: o << (long long)linear_to_srgba8(vec4f(f_of(a[0]), f_of(a[1]), f_of(a[2]), f_of(a[3]))); break;
       case 28: {   // linear_to_srgba(vec4f): the four result channels
         const vec4f r = linear_to_srgba(vec4f(f_of(a[0]), f_of(a[1]), f_of(a[2]), f_of(a[3])));
         o << b_of(r.x) << " " << b_of(r.y) << " " << b_of(r.z) << " " << b_of(r.w);
         break;
       }
+      case 48: OUTR(b_of, clamp(f_of(a[0]))); break;        // defaulted bounds T(zero), T(one)
+      case 49: OUTR(b_of64, clamp(d_of(ua[0]))); break;
+      case 50:     // uniform_real_distribution<T> over generator a[0] of the family, T = float (a[1]==32) / double, sample a[4]
+        if (a[1] == 32) o << b_of(uniform_with_gen<float>((int)a[0], f_of(a[2]), f_of(a[3]), ua[4]));
+        else o << b_of64(uniform_with_gen<double>((int)a[0], d_of(ua[2]), d_of(ua[3]), ua[4]));
+        break;
+      case 51:     // ... over the standard engine a[0] seeded with a[2] (first draw)
+        if (a[1] == 32) o << b_of(uniform_with_std<float>((int)a[0], ua[2], f_of(a[3]), f_of(a[4])));
+        else o << b_of64(uniform_with_std<double>((int)a[0], ua[2], d_of(ua[3]), d_of(ua[4])));
+        break;
       // ---- double instantiations / overloads of rkmath.h (arguments and results are binary64 bit patterns)
-      case 40: o << b_of64(rcp(d_of(ua[0]))); break;
-      case 41: o << b_of64(rcp_safe(d_of(ua[0]))); break;
-      case 42: o << b_of64(rsqrt(d_of(ua[0]))); break;
-      case 43: o << b_of64(clamp(d_of(ua[0]), d_of(ua[1]), d_of(ua[2]))); break;
-      case 44: o << b_of64(deg2rad(d_of(ua[0]))); break;
-      case 45: o << b_of64(madd(d_of(ua[0]), d_of(ua[1]), d_of(ua[2]))); break;
-      case 46: o << b_of64(lerp(f_of(a[0]), d_of(ua[1]), d_of(ua[2]))); break;      // factor is a float
-      case 47: o << (unsigned long long)clamp<unsigned>((unsigned)ua[0], (unsigned)ua[1], (unsigned)ua[2]); break;
+      case 40: OUTR(b_of64, rcp(d_of(ua[0]))); break;
+      case 41: OUTR(b_of64, rcp_safe(d_of(ua[0]))); break;
+      case 42: OUTR(b_of64, rsqrt(d_of(ua[0]))); break;
+      case 43: OUTR(b_of64, clamp(d_of(ua[0]), d_of(ua[1]), d_of(ua[2]))); break;
+      case 44: OUTR(b_of64, deg2rad(d_of(ua[0]))); break;
+      case 45: OUTR(b_of64, madd(d_of(ua[0]), d_of(ua[1]), d_of(ua[2]))); break;
+      case 46: OUTR(b_of64, lerp(f_of(a[0]), d_of(ua[1]), d_of(ua[2]))); break;      // factor is a float
+      case 47: OUTR((unsigned long long), clamp<unsigned>((unsigned)ua[0], (unsigned)ua[1], (unsigned)ua[2])); break;
       case 16: {   // deg2rad constant as compiled
         o << b_of(float(1.745329251994329576923690768489e-2)); break;
       }
-      case 20: o << (long long)divRoundUp<int>((int)a[0], (int)a[1]); break;
-      case 21: o << (long long)divRoundUp<unsigned>((unsigned)a[0], (unsigned)a[1]); break;
-      case 22: o << (unsigned long long)divRoundUp<size_t>((size_t)ua[0], (size_t)ua[1]); break;
-      case 23: o << (long long)divRoundUp<int64_t>((int64_t)a[0], (int64_t)a[1]); break;
-      case 24: o << (long long)clamp<int>((int)a[0], (int)a[1], (int)a[2]); break;
+      case 20: OUTR((long long), divRoundUp<int>((int)a[0], (int)a[1])); break;
+      case 21: OUTR((long long), divRoundUp<unsigned>((unsigned)a[0], (unsigned)a[1])); break;
+      case 22: OUTR((unsigned long long), divRoundUp<size_t>((size_t)ua[0], (size_t)ua[1])); break;
+      case 23: OUTR((long long), divRoundUp<int64_t>((int64_t)a[0], (int64_t)a[1])); break;
+      case 24: OUTR((long long), clamp<int>((int)a[0], (int)a[1], (int)a[2])); break;
       case 29:     // (same observation as 25; the model side evaluates the REGENERATED engine)
       case 25: {   // raw pcg32 stream: n outputs after seed(seed, sequence)
         pcg32 g; g.seed((int)a[0], (int)a[1]);
@@ -147,7 +211,7 @@ int main() {
         o << (long long)cvt_uint32(vec4f(a[0] / 255.f, a[1] / 255.f, a[2] / 255.f, a[3] / 255.f));
         break;
       }
-      case 27: o << (long long)clamp<int64_t>((int64_t)a[0], (int64_t)a[1], (int64_t)a[2]); break;
+      case 27: OUTR((long long), clamp<int64_t>((int64_t)a[0], (int64_t)a[1], (int64_t)a[2])); break;
       default: o << "?";
     }
     std::cout << o.str() << "\n";
